@@ -7,8 +7,10 @@ QUICK_N = 3000
 THOROUGH_N = 30000
 SHARD = 300
 RULE = ("15 case kinds: quote/unquote, url.encode (with similar_to), url.decode, Request.query set/get on a raw path "
-        "(params, query, fragment, TAB/CR/LF, repeated slashes), path_components, urlencoded_form (old bodies with and "
-        "without '=' per field), cookie formatter, cookie tokenizer on arbitrary header text, Request.cookies over header "
+        "(params, query, fragment, TAB/CR/LF, repeated slashes), path_components, urlencoded_form on EXISTING requests (prior Content-Type: none, "
+        "other types, form type with utf-8/latin-1/utf-16/utf-16le/be/utf-32/cp037/bogus charset, duplicate and mixed-case headers, "
+        "Transfer-Encoding, stale Content-Length; old bodies encoded in that charset, with and without '=' per field; written bodies of "
+        "even and odd length), cookie formatter, cookie tokenizer on arbitrary header text, Request.cookies over header "
         "lists with several Cookie headers, Set-Cookie tokenizer, Response.cookies with attributes (expires/path/None), "
         "multipart encode / decode (mutated bodies, LF-only bodies, missing blank line) / view, MultiDictView mutators on "
         "query. ~70% of strings come from per-kind token dictionaries (separators, quotes, backslashes, CR/LF, Unicode "
@@ -22,11 +24,13 @@ TRUSTED = ["Coq 8.16.1 kernel (coqc), vm_compute for byte sweeps and case evalua
            "hand models of urllib.parse quote/unquote/quote_plus/urlencode/parse_qsl and of urlparse/urlunparse restricted to the "
            "text after scheme://authority (origin-form path); tied by correspondence only",
            "headers.parse_content_type (the model receives the boundary parameter), mimetypes.guess_type(str(bytes)) returning None, "
-           "Message.get_text/set_content without Content-Encoding (the model receives the old text), str.lower/str.lstrip tables"]
+           "Message.get_text/set_content without Content-Encoding (the model receives the texts get_text returns), str.lower/str.lstrip tables",
+           "get_text contract of C34_form_msg_partial: under Content-Type application/x-www-form-urlencoded without parameters an ASCII body is "
+           "its own text (its instances are compared in every Form case)"]
 ASSUMPTIONS = ["Request.path is in origin form (starts with '/'), scheme http/https and a host without '/?#'",
                "no Content-Encoding header on messages whose body is rewritten through a form view (C31 covers codecs)",
                "Python str.lower never maps a non-ASCII string to the ASCII words expires/path"]
-COQ_PRELUDE = "From MV Require Import Model.MvCommon Model.MvCookie Model.MvViews.\n"
+COQ_PRELUDE = "From MV Require Import Model.MvCommon Model.MvCookie Model.MvViews Model.MvForm.\n"
 
 E = lambda s: s.encode("utf-8", "surrogateescape")
 D = lambda b: b.decode("utf-8", "surrogateescape")
@@ -202,6 +206,40 @@ def gop(rng, T):
     return ["del", hx(k)]
 
 
+FORM = "application/x-www-form-urlencoded"
+FORM_CTS = [(None, "utf-8"), (FORM, "utf-8"), (FORM, "utf-8"), ("text/plain", "utf-8"), (FORM + "; charset=utf-8", "utf-8"),
+            (FORM + "; charset=ISO-8859-1", "latin-1"), ("Application/X-WWW-Form-Urlencoded;charset=UTF-16", "utf-16"),
+            (FORM + "; charset=utf-16le", "utf-16le"), (FORM + "; charset=utf-16be", "utf-16be"), (FORM + "; charset=utf-32", "utf-32"),
+            (FORM + "; charset=cp037", "cp037"), (FORM + "; charset=bogus", "utf-8"), ("multipart/form-data; boundary=x", "utf-8"),
+            ("application/json; charset=utf-16", "utf-16"), ("text/html; x=" + FORM, "utf-8")]
+
+
+def gform(rng):
+    """an EXISTING request: arbitrary prior Content-Type header(s) (form type with ASCII-compatible and -incompatible
+    charsets, other types, none, duplicates), other headers, old body encoded in the header's charset"""
+    ct, codec = rng.choice(FORM_CTS)
+    text = rng.choice([None, "", "a=1&b=2", "a&b", "a=1&b", "=", "x=&y=", "\u00e9=1&z", "old=1", "old=1&y=2", "a&="])
+    if rng.chance(0.2):
+        text = toks(rng, [b"a", b"=", b"&", b"b=1", b"c"], 0, 5).decode()
+    old = None if text is None else text.encode(codec, "replace")
+    if old is not None and rng.chance(0.1):
+        old = rng.bytes(rng.randint(0, 6))
+    h = []
+    if rng.chance(0.4):
+        h.append([b"Host", b"example.com"])
+    if rng.chance(0.15):
+        h.append([rng.choice([b"Content-Length", b"content-length"]), b"5"])
+    if ct is not None:
+        h.append([rng.choice([b"content-type", b"Content-Type", b"CONTENT-TYPE"]), ct.encode()])
+    if rng.chance(0.15):
+        h.append([b"Transfer-Encoding", b"chunked"])
+    if rng.chance(0.3):
+        h.append([b"X-A", plain(rng, 0, 2)])
+    if rng.chance(0.12):
+        h.append([b"Content-Type", rng.choice(FORM_CTS[1:])[0].encode()])
+    return {"k": "form", "h": [[hx(a), hx(b)] for a, b in h], "old": None if old is None else hx(old), "l": gpairs(rng, URL_T)}
+
+
 KINDS = [("quote", 6), ("urlenc", 7), ("urldec", 7), ("query", 10), ("pathcomp", 8), ("form", 8), ("cookiefmt", 6),
          ("cookieparse", 9), ("reqcookies", 8), ("scparse", 9), ("respcookies", 8), ("mpenc", 6), ("mpdec", 9), ("mpview", 9),
          ("queryop", 6)]
@@ -221,11 +259,7 @@ def gen_one(rng, k):
         comps = [hx(plain(rng, 0, 2) if rng.chance(0.4) else gstr(rng, URL_T, 3)) for _ in range(rng.randint(0, 4))]
         return {"k": k, "path": hx(gpath(rng)), "comps": comps}
     if k == "form":
-        old = rng.choice([None, b"", b"a=1&b=2", b"a&b", b"a=1&b", b"=", b"x=&y=", E("é=1&z")])
-        if rng.chance(0.2):
-            old = toks(rng, [b"a", b"=", b"&", b"b=1", b"c"], 0, 5)
-        return {"k": k, "old": None if old is None else hx(old), "ct": rng.choice([None, "application/x-www-form-urlencoded", "text/plain"]),
-                "l": gpairs(rng, URL_T)}
+        return gform(rng)
     if k == "cookiefmt":
         return {"k": k, "l": gpairs(rng, CK_T)}
     if k == "cookieparse":
@@ -357,18 +391,23 @@ def run_impl(case):
         return {"before": before, "path_after": hx(r.data.path), "after": [hx(E(c)) for c in r.path_components],
                 "wb": [hx(E(c)) for c in r2.path_components], "others": [o1, _others(r, (3, 4, 5))]}
     if k == "form":
-        fields = [] if case["ct"] is None else [[hx(b"content-type"), hx(case["ct"].encode())]]
+        fields = case["h"] if "h" in case else ([] if case["ct"] is None else [[hx(b"content-type"), hx(case["ct"].encode())]])
         r = _req(b"/", fields, None if case["old"] is None else unhx(case["old"]))
-        old_text = r.get_text(strict=False)
+        # the text url.encode(similar_to=...) sees: the setter assigns the header first, then calls get_text
+        r3 = r.copy()
+        r3.headers["content-type"] = FORM
+        old_text = r3.get_text(strict=False)
         r2 = r.copy()
+        is_form = FORM in r.headers.get("content-type", "").lower()
         r.urlencoded_form = _sp(case["l"])
         wb_before = wb_after = None
-        if case["ct"] == "application/x-www-form-urlencoded":
+        if is_form:
             wb_before = _hp(r2.urlencoded_form.fields)
             r2.urlencoded_form = r2.urlencoded_form.fields
             wb_after = _hp(r2.urlencoded_form.fields)
-        return {"old_text": None if old_text is None else hx(E(old_text)), "body": hx(r.data.content),
-                "after": _hp(r.urlencoded_form.fields), "ct_after": r.headers.get("content-type"),
+        return {"h": fields, "old_text": None if old_text is None else hx(E(old_text)), "body": hx(r.data.content),
+                "h_after": _hb(r.headers.fields), "text_after": hx(E(r.get_text(strict=False))),
+                "after": _hp(r.urlencoded_form.fields), "is_form": is_form,
                 "wb_before": wb_before, "wb_after": wb_after}
     if k == "cookiefmt":
         h = cookies.format_cookie_header(_sp(case["l"]))
@@ -486,9 +525,8 @@ def coq_case(case, obs):
     if k == "pathcomp":
         return f"PathComp {cb(case['path'])} {clb(case['comps'])} {clb(obs['before'])} {cb(obs['path_after'])} {clb(obs['after'])}"
     if k == "form":
-        if obs["ct_after"] != "application/x-www-form-urlencoded":
-            return f"Form None nil [x00] nil"      # must never happen: forces a disagreement
-        return f"Form {cob(obs['old_text'])} {cpairs(case['l'])} {cb(obs['body'])} {cpairs(obs['after'])}"
+        return (f"Form {cpairs(obs['h'])} {cob(obs['old_text'])} {cpairs(case['l'])} {cpairs(obs['h_after'])} {cb(obs['body'])} "
+                f"{cb(obs['text_after'])} {cpairs(obs['after'])}")
     if k == "cookiefmt":
         return f"CookieFmt {cpairs(case['l'])} {cb(obs['hdr'])}"
     if k == "cookieparse":
@@ -636,7 +674,7 @@ def oracle(case, obs):
         if obs["after"] != case["l"]:
             lossy = _similar_mode(obs["old_text"]) and ["", ""] in case["l"]
             v.append({"key": "urlencoded-empty-pair-similar-to" if lossy else "form-roundtrip",
-                      "what": f"old body {case['old']}: urlencoded_form = {case['l']} reads back {obs['after']}"})
+                      "what": f"existing headers {obs['h']} old body {case['old']}: urlencoded_form = {case['l']} reads back {obs['after']}"})
         if obs["wb_after"] != obs["wb_before"]:
             lossy = _similar_mode(obs["old_text"]) and ["", ""] in obs["wb_before"]
             v.append({"key": "urlencoded-empty-pair-similar-to" if lossy else "form-writeback",
@@ -707,6 +745,11 @@ def classify(case, obs):
         tags.append("sc:" + ("representable" if sc_repr(case["l"]) else "not-representable"))
     elif k == "form":
         tags.append("form:similar" if _similar_mode(obs["old_text"]) else "form:plain")
+        cts = [unhx(b).decode("latin-1").lower() for a, b in obs["h"] if unhx(a).lower() == b"content-type"]
+        tags.append("form-ct:" + ("none" if not cts else "other" if FORM not in cts[0] else
+                                  "plain" if "charset" not in cts[0] else
+                                  "charset-incompatible" if any(x in cts[0] for x in ("utf-16", "utf-32", "cp037")) else "charset-compatible"))
+        tags.append("form-body:" + ("even" if len(unhx(obs["body"])) % 2 == 0 else "odd"))
     elif k == "queryop":
         tags.append("op:" + case["op"][0] + (":KeyError" if obs["err"] else ""))
     elif k == "pathcomp":
